@@ -53,8 +53,11 @@ type stakeWorld struct {
 	base      time.Time
 }
 
-func newStakeWorld(o env.E1Options, maxVals uint32, unbond time.Duration) *stakeWorld {
+func newStakeWorld(o env.E1Options, maxVals uint32, unbond time.Duration, height int64) *stakeWorld {
 	e := env.NewE1(o)
+	if height > 0 {
+		e.Ctx = e.Ctx.WithBlockHeight(height) // unbonding entries created by the set-up mature relative to this height
+	}
 	w := &stakeWorld{e: e, stk: stakingkeeper.NewMsgServerImpl(e.Staking), slash: slashingkeeper.NewMsgServerImpl(e.Slashing), base: e.Ctx.BlockTime()}
 	p, err := e.Staking.GetParams(e.Ctx)
 	if err != nil {
